@@ -286,6 +286,15 @@ SHAPES = {
 }
 
 
+def _all_kind_shapes():
+    """every cross-section kind (incl. FW, F1, g5, which carry no XS prefix) and every structure
+    function kind once: the result class must survive by what was stored, not by the name."""
+    from yadism import observable_name as on
+
+    SHAPES["all-xs-kinds"] = {f"{k}_total": ("EXS", 1, [(0, 0, 0, 0)], None) for k in on.xs}
+    SHAPES["all-sf-kinds"] = {f"{k}_light": ("ESF", 1, [(0, 0, 0, 0)], None) for k in on.sfs}
+
+
 def sec_results(rep):
     """from_document(get_raw(r)) == r for ESFResult / EXSResult (symbolic entries, float()/int() shimmed)."""
     from yadism.esf import result as resmod
@@ -344,6 +353,8 @@ def roundtrip(sy, fmt, shape, cycles=1):
 def sec_roundtrip(rep):
     from yadism.output import Output
 
+    _all_kind_shapes()
+
     rep.under_contract(Output.get_raw, Output.dump_yaml, Output.load_yaml, Output.dump_tar, Output.load_tar)
     sy = H.Sy()
     for fmt in ("tar", "yaml", "tar>yaml", "yaml>tar", "tar>yaml>tar"):
@@ -364,6 +375,51 @@ def sec_roundtrip(rep):
         ok = True
     rep.add(ob_eval("C15/dump_tar/wrong-suffix-raises-ValueError", ok))
     rep.sample({"roundtrip": "Output with F2_total (2 points), XSCHORUSCC_light (1 point, EXS), FL_bottom=None: load_tar(dump_tar(o)) has identical keys, cards, kinematics, order keys (tuples), and entry-wise identical symbolic values/errors; yaml/npz/tar/tempfile/pathlib replaced by inverse-pair contract stubs"})
+
+
+def sec_same_path(rep):
+    """History: a path written twice is read back as what was written LAST (no loader keeps state
+    keyed by the file name).  dump A -> P, load; dump B -> P, load: second load == B, first == A."""
+    from yadism import output as outmod
+    from yadism.esf import result as resmod
+
+    rep.under_contract(outmod.Output.dump_yaml_to_file, outmod.Output.load_yaml_from_file)
+    sy = H.Sy()
+    for fmt in ("tar", "yaml-file"):
+        rep.cases += 1
+
+        def case(sy, fmt=fmt):
+            fs, yml = FS(), YamlStub()
+
+            class FakeFile(io.StringIO):
+                def __init__(s, path, mode="r", **kw):
+                    s.path, s.mode = str(path), mode
+                    super().__init__(fs.files.get("file:" + s.path, "") if "r" in mode else "")
+
+                def close(s):
+                    if "w" in s.mode:
+                        fs.files["file:" + s.path] = s.getvalue()
+                    super().close()
+
+                def __exit__(s, *a):
+                    s.close()
+
+            A, B = mk_output(sy, SHAPES["ESF-1pt"]), mk_output(sy, SHAPES["mixed+None"])
+            binds = io_binds(outmod, fs, yml, sy) + [(outmod, "open", FakeFile)] + ([] if sy.is_numeric else [(resmod, "np", NumpyShim()), (resmod, "float", lambda v: v if isinstance(v, R) else float(v))])
+            with rebind(*binds):
+                if fmt == "tar":
+                    A.dump_tar("/out/same.tar")
+                    la = outmod.Output.load_tar("/out/same.tar")
+                    B.dump_tar("/out/same.tar")
+                    lb = outmod.Output.load_tar("/out/same.tar")
+                else:
+                    A.dump_yaml_to_file("/out/same.yaml")
+                    la = outmod.Output.load_yaml_from_file("/out/same.yaml")
+                    B.dump_yaml_to_file("/out/same.yaml")
+                    lb = outmod.Output.load_yaml_from_file("/out/same.yaml")
+            return view_triples("first", A, la) + view_triples("second", B, lb) + [("distinct objects", la is lb, False)]
+
+        rep.check(f"C15/{fmt}/same path written twice is read back as written last", case, sy)
 
 
 def sec_real_io(rep):
@@ -443,7 +499,7 @@ def run(rep, tier, seed, only=None):
         "float()/int() in ESFResult.get_raw are the identity on reals (shimmed for symbols)",
     )
     rep.stub("yaml, numpy savez/load, tarfile, tempfile, pathlib -> in-memory contract stubs", "result.float -> identity on symbols")
-    for nm, f in (("results", sec_results), ("roundtrip", sec_roundtrip), ("real", sec_real_io)):
+    for nm, f in (("results", sec_results), ("roundtrip", sec_roundtrip), ("samepath", sec_same_path), ("real", sec_real_io)):
         if only and only not in nm:
             continue
         rep.add(guarded(f"C15/{nm}", lambda f=f: (f(rep), [])[1]))
